@@ -86,10 +86,16 @@ def zs(s):
     return s.z()
 
 
+FREE_LEN = {}   # z3 ast id of a free string variable -> its symbolic length (Int)
+
+
 def str_len(I, s):
     if s.concrete():
         return len(s.s.encode('utf8'))
-    return z3.Int2BV(z3.Length(s.s), 64)
+    n = FREE_LEN.get(s.s.get_id())
+    if n is not None:
+        return n
+    return z3.Length(s.s)   # mathematical integer: lengths are far below 2^64, no wrap-around possible
 
 
 def mkspan(lo, hi):
@@ -1265,9 +1271,7 @@ def _as_variant(enum, vname):
         q = p
         while isinstance(load(q), Ptr):
             q = load(q)
-        inner = v.fields[0]
-        if isinstance(inner, Ptr) and inner.dyn == 'box':
-            return some(Ptr(inner.cell, inner.path))
+        # `as_x()` returns a reference to the variant's field itself (a `&Box<T>` when the field is boxed)
         return some(Ptr(q.cell, q.path + (('f', 0),)))
     return f
 
@@ -1487,9 +1491,15 @@ class Visitor:
             return True
         return r
 
+    def canon(self, ty):
+        if ty not in self.schema and ty.startswith('Vec<') and ('[' + ty[4:-1] + ']') in self.schema:
+            return '[' + ty[4:-1] + ']'
+        return ty
+
     def _reach(self, ty):
         if ty.startswith('Box<'):
             return self.reach(ty[4:-1])
+        ty = self.canon(ty)
         e = self.schema.get(ty)
         if e is None:
             return False
@@ -1519,6 +1529,7 @@ class Visitor:
         if ty.startswith('Box<'):
             b = load(nodeptr)
             return self.visit_with(ty[4:-1], Ptr(b.cell, b.path), visitor)
+        ty = self.canon(ty)
         e = self.schema.get(ty)
         if e is None:
             raise Unsupported('visit schema has no entry for %s' % ty)
@@ -1535,6 +1546,7 @@ class Visitor:
         if ty.startswith('Box<'):
             b = load(nodeptr)
             return self.visit_children(ty[4:-1], Ptr(b.cell, b.path), visitor)
+        ty = self.canon(ty)
         e = self.schema.get(ty)
         if e is None:
             raise Unsupported('visit schema has no entry for %s' % ty)
@@ -1923,3 +1935,30 @@ def _vec_truncate(I, info, args):
     n = I.concretize_int(args[1])
     del a[n:]
     return UNIT
+
+
+# ---------------------------------------------------------------- swc SourceMap::lookup_char_pos (uninterpreted)
+
+LINE_OF = z3.Function('line_of', z3.IntSort(), z3.IntSort())
+COL_OF = z3.Function('col_of', z3.IntSort(), z3.IntSort())
+
+
+def _as_int_term(v):
+    if isinstance(v, int):
+        return z3.IntVal(v)
+    if z3.is_bv(v):
+        return z3.BV2Int(v)
+    return v
+
+
+@path(('SourceMap', 'lookup_char_pos'))
+def _lookup_char_pos(I, info, args):
+    pos = args[1]
+    lo = pos.fields[0] if isinstance(pos, Adt) else pos
+    t = _as_int_term(lo)
+    return Adt('Loc', None, [Opaque('SourceFile'), LINE_OF(t), Adt('CharPos', None, [COL_OF(t)]), 0])
+
+
+@path(('str', 'to_owned'), ('String', 'to_owned'))
+def _str_to_owned(I, info, args):
+    return as_str(I, args[0])
